@@ -193,7 +193,7 @@ Section Frame.
                  | (EvVal nx o2, st2) =>
                      match logical_op op with
                      | Some f => Ok (EvVal (vbool (f unar nx)) o2, st2)
-                     | None => Panic 886
+                     | None => Panic 900
                      end
                  end) = Ok (y, st') ->
                 st' = st /\ ((prepared_equality e && prepared_logopt next)%bool = true -> ref_of y = ORef)).
@@ -264,18 +264,19 @@ Section Frame.
       + (* path branch: the reference is always the record *)
         assert (Hgoal : st' = st /\ ref_of y = ORef); [|destruct Hgoal as [G1 G2]; split; [exact G1|intros _; exact G2]].
         unfold path_branch in H. cbv zeta in H.
-        assert (Hgen : forall v,
+        assert (Hgen : forall v (nm : bool),
           (match helper, call with
            | Some h, ClSome (CallExpr _ ps _) =>
                let* r := ev_paramsopt ps st in
                let '(pvals, st1) := r in
                match lookup h with
-               | Some hf => let* hr := hf (VJ st :: v :: pvals) st1 in let '(o, v', st2) := hr in Ok (EvVal v' o, st2)
+               | Some hf => if nm && subject_helper h then Ok (EvVal vfalse ORef, st1)
+                            else let* hr := hf (VJ st :: v :: pvals) st1 in let '(o, v', st2) := hr in Ok (EvVal v' o, st2)
                | None => Ok (EvCollapse ORef, st1)
                end
            | _, _ => Ok (EvVal v ORef, st)
            end) = Ok (y, st') -> st' = st /\ ref_of y = ORef).
-        { intros v Hv. destruct helper as [h|]; [|inversion Hv; subst; split; reflexivity].
+        { intros v nm Hv. destruct helper as [h|]; [|inversion Hv; subst; split; reflexivity].
           destruct call as [|[ident ps sel]]; [inversion Hv; subst; split; reflexivity|].
           cbn [F_callopt F_callexpr] in IHcall. destruct IHcall as [IHps _].
           cbn [no_redact_callopt no_redact_callexpr] in Hnr1. split_nr Hnr1.
@@ -283,12 +284,13 @@ Section Frame.
           pose proof (IHps st pvals st1 Hnr1 Hp) as Hst1. subst st1.
           cbn [is_redact] in Hnr. apply negb_true_iff in Hnr.
           destruct (lookup h) as [hf|] eqn:Hl; [|inversion Hv; subst; split; reflexivity].
+          destruct (nm && subject_helper h); [inversion Hv; subst; split; reflexivity|].
           apply bind_ok in Hv. destruct Hv as [[[o v'] st2] [Hh Hv]].
           destruct (lookup_frame h hf Hnr Hl _ _ _ _ _ Hh) as [Hst2 Ho]. subst st2.
           inversion Hv; subst. split; [reflexivity|]. cbn [ref_of]. apply Ho. discriminate. }
-        destruct (jget jp st) as [|x l] eqn:Hj.
-        * destruct helper; [apply (Hgen _ H) | inversion H; subst; split; reflexivity].
-        * destruct helper; apply (Hgen _ H).
+        destruct (jget jp st) as [|x l] eqn:Hj; cbn [no_match] in H.
+        * destruct helper; [apply (Hgen _ true H) | inversion H; subst; split; reflexivity].
+        * destruct helper; apply (Hgen _ false H).
       + destruct regexp; [inversion H; subst; split; [reflexivity|intros _; reflexivity]|].
         destruct sub as [|e].
         * destruct call as [|[ident ps sel]]; [inversion H; subst; split; [reflexivity|intros _; reflexivity]|].
